@@ -240,7 +240,9 @@ const HDISTS: [fn() -> Dist; 9] = [
 pub fn huff_tree_specs(scale: Scale, tier: Tier, bits: u32, arity: usize, seed: u64) -> Vec<SeqSpec> {
     let lim = limits(scale, tier);
     let mut rng = Rng::derive(seed, "huff_tree_specs", bits as u64 * 8 + arity as u64);
-    let alphas = huff_alphabets(bits);
+    // interpreters: the structure allocates and scans a table indexed by symbol value; keep values
+    // small there (a 2^20-entry table alone costs minutes under Miri)
+    let alphas = if scale == Scale::Tiny { huff_alphabets(bits.min(if tier == Tier::Quick { 8 } else { 12 })) } else { huff_alphabets(bits) };
     let mut out = Vec::new();
     let mut k = rng.usize_below(1000);
     for n in boundary_lengths(lim.max_n) {
